@@ -394,6 +394,11 @@ def check(case, obs, tally):
                 out.append({"clause": "decision", "sig": "C11.close-not-403/h%s" % hv, "detail": "websocket.close before accept gave %r" % status})
         elif dec[0] == "http":
             st, hs, chunks = dec[1], dec[2] or [], dec[3]
+            if hv != "2" and obs.closed_at is not None and not any(n_.lower() == b"connection" and b"close" in v_.lower() for n_, v_ in headers):
+                # (HTTP/1.1: a connection that carried a refused handshake is not used again - then the refusal says so)
+                out.append({"clause": "decision", "sig": "C11.http-response/close-not-announced",
+                            "detail": "the application's own refusal (%r) was sent without 'connection: close' and the server closed the connection after it (at %r): headers %r" % (
+                                st, obs.closed_at, headers)})
             if len(dec) > 4 and dec[4] == "wait":
                 tally.clause("close-code")
                 nd = sum(1 for m in obs.apps.recvs[inst] if m.get("type") == "websocket.disconnect")
